@@ -419,27 +419,43 @@ decreasing_by
     exact Nat.lt_succ_of_le (sumMergeBlocksInner_length S _ _ _ _ _)
   · simp
 
+/-- one step of `sum += op._factor * (-1 if ng else 1)` over the ScalingOperators of a group -/
+def sumScalStep (s : K) (x : Op K D × Bool) : K :=
+  match x.1 with
+  | .scaling _ c _ => S.kadd s (if x.2 then S.kneg c else c)
+  | _ => s
+
+/-- the common sampling dtype of the scalings of a group (`dtype[0]` if all are equal, else `None`) -/
+def commonDtype : List Nat → Nat
+  | [] => 0
+  | d :: ds => if ds.all (· == d) then d else 0
+
+/-- `opset[0][0].domain` -/
+def firstDom (l : List (Op K D × Bool)) : Nat := match l.head? with | some x => dom x.1 | none => 0
+
 /-- one `(domain, target)` group of SumOperator.simplify -/
 def sumProcessGroup (fuel : Nat) (mk : List (Op K D) → List Bool → Op K D) (opset : List (Op K D × Bool)) :
     List (Op K D × Bool) :=
   let scal := opset.filter (fun x => isScaling x.1)
-  let s := scal.foldl (fun s x => match x.1 with
-      | .scaling _ c _ => S.kadd s (if x.2 then S.kneg c else c)
-      | _ => s) S.kzero
+  let s := scal.foldl (sumScalStep S) S.kzero
   let dts := scal.map (fun x => dtOf x.1)
-  let dtype := match dts with | [] => 0 | d :: ds => if ds.all (· == d) then d else 0
+  let dtype := commonDtype dts
   let others := opset.filter (fun x => !isScaling x.1)
-  let lastdom := match opset.head? with | some x => dom x.1 | none => 0
+  let lastdom := firstDom opset
   let r := if !S.keq s S.kzero then sumAbsorb S s dtype others else (others, s)
   let ops3 := if !S.keq r.2 S.kzero || r.1.isEmpty then r.1 ++ [(Op.scaling lastdom r.2 dtype, false)] else r.1
   sumMergeBlocks S fuel mk (sumMergeDiags S ops3)
 
+/-- nested sums unpacked with their signs (`negnew += [not n for n in op._neg]` for a subtracted sum) -/
+def sumFlatten (ops : List (Op K D)) (neg : List Bool) : List (Op K D × Bool) :=
+  (ops.zip neg).flatMap (fun x => match x.1 with
+      | .sum l ns => l.zip (if x.2 then ns.map (!·) else ns)
+      | o => [(o, x.2)])
+
 /-- SumOperator.simplify -/
 def sumSimplify (fuel : Nat) (mk : List (Op K D) → List Bool → Op K D) (ops : List (Op K D)) (neg : List Bool) :
     List (Op K D × Bool) :=
-  let flat := (ops.zip neg).flatMap (fun x => match x.1 with
-      | .sum l ns => l.zip (if x.2 then ns.map (!·) else ns)
-      | o => [(o, x.2)])
+  let flat := sumFlatten ops neg
   let keys := groupKeys flat
   keys.flatMap (fun k => sumProcessGroup S fuel mk (flat.filter (fun x => domTgt x.1 == k)))
 
